@@ -11,12 +11,13 @@ TECHNIQUE = ("Coq proof (induction over chunk lists and message sequences; chunk
              "MessageBase::extract_element and fast_atoi<unsigned>; model tied to the code by running the real FIXReader thread "
              "function on an in-memory Poco socket with scripted chunk boundaries against the extracted model, under ASan")
 LEVEL_TEXT = ("Theorems c15_sockread_chunking / c15_chunking_independent (the result of the modelled reader depends only on the "
-              "concatenated byte stream), c15_frames_exact / c15_valid_streams_ok (every sequence of valid frames whose BodyLength "
-              "field is shorter than the val buffer, in any chunking, is handed on exactly, in order, with no error and no "
-              "out-of-bounds write), c15_bad_preamble_partial (wrong BeginString, zero / non-numeric / oversized BodyLength under "
-              "explicit boolean hypotheses: error, nothing handed on, no out-of-bounds write) and c15_*_refuted (witnesses where the "
-              "faithful model violates the property: tag/val stack overflows, 32-bit wrap of BodyLength, first-character-only tag "
-              "tests, non-digit first BodyLength character, NUL inside BeginString).")
+              "concatenated byte stream), c15_frames_exact / c15_valid_streams_ok (every sequence of valid frames, in any chunking, "
+              "is handed on exactly, in order, with no error), c15_no_oob (no out-of-bounds write into msg_buf/tag/val for ANY "
+              "stream, with extract_element as repaired by d48d8ce), c15_long_field_error (over-long tags/values: IllegalMessage, "
+              "nothing handed on), c15_bad_*_partial (wrong BeginString, zero / non-numeric / oversized BodyLength under explicit "
+              "boolean hypotheses: error, nothing handed on), c15_overflow_orig_refuted (the unrepaired extract_element overflowed) "
+              "and c15_*_refuted (witnesses where the faithful model still violates the property: 32-bit wrap of BodyLength, "
+              "first-character-only tag tests, non-digit first BodyLength character, NUL inside BeginString).")
 LEVEL_NOTE = ("Trusted: Coq kernel, extraction, the hand transcription (checked by the correspondence run), vsock.hpp's "
               "receiveBytes (one call returns a prefix of one chunk), ASan detecting the first write past tag[32]/val[2048], "
               "char is signed, the kind of exception is read from the text FIXReader::execute logs. Actual memory safety of the "
@@ -161,7 +162,7 @@ def parse_case(line):
 # --------------------------------------------------------------------------------- malformed heads
 def bad_heads(rng, thorough):
     """(class, bytes) of corrupted preambles (followed by enough bytes for the reader to go on).
-    Every memory error costs two process starts, so the quick tier keeps only the boundary pairs."""
+    thorough=False keeps only the boundary pairs of the over-long fields (used while those crashed)."""
     fill = lambda n: bytes(rng.choice(b"ABCxyz019=") for _ in range(n)) + b"10=000" + SOH
     d = lambda n, c=b"7": c * n
     H = []
@@ -261,9 +262,10 @@ def gen_cases(rng, tier):
             cs.append(mk(c % 3 != 0, rng.randrange(2), rand_chunks(rng, s[:c], rng.choice((0, 2, 3))), "truncated"))
     # 4. corrupted preambles after 0..2 valid frames
     for r in range(rep):
-        for cls, h in bad_heads(rng, thorough):
+        # since d48d8ce the over-long fields are plain error cases (no crash): the full set also in the quick tier
+        for cls, h in bad_heads(rng, True):
             if r > 0 and cls in ("digit-run", "long-value", "max-preamble"):
-                continue        # the memory-error cases once (each costs two process starts)
+                continue
             k = rng.choice((0, 0, 1, 2))
             s = b"".join(rand_frame(rng, rng.randrange(1, 30)) for _ in range(k)) + h
             if rng.randrange(3) == 0:
